@@ -185,6 +185,13 @@ func specRecHdrEq(a, b CdrHeader) bool {
 // @   requires specHdrOK(f.Hdr) && int(f.Hdr.NumberOfCdrsInFile) == len(f.CdrList) && len(f.CdrList) <= 2
 // @   requires len(f.Hdr.CDRRouteingFilter) == 0 && len(f.Hdr.PrivateExtension) == 0
 // @   requires forall j int in 0..2 :: j < len(f.CdrList) ==> specRecOK(f.CdrList[j])
+// @   assert "g.Decoding(": verif_fileLen(name) == specHdrLen(f.Hdr)+SpecRecsLen(f.CdrList, len(f.CdrList))
+// @   assert "g.Decoding(": forall k int in 0..50 :: verif_fileByte(name, k) == specHdrFixed(f.Hdr, k)
+// @   assert "g.Decoding(": verif_fileByte(name, 50) == specBE16(f.Hdr.LengthOfPrivateExtension, 0) && verif_fileByte(name, 51) == specBE16(f.Hdr.LengthOfPrivateExtension, 1)
+// @   assert "g.Decoding(": f.Hdr.HighReleaseIdentifier == 7 ==> verif_fileByte(name, 52) == f.Hdr.HighReleaseIdentifierExtension
+// @   assert "g.Decoding(": f.Hdr.LowReleaseIdentifier == 7 ==> verif_fileByte(name, 52+specB2I(f.Hdr.HighReleaseIdentifier == 7)) == f.Hdr.LowReleaseIdentifierExtension
+// @   assert "g.Decoding(": forall j int in 0..2 :: j < len(f.CdrList) ==> forall k int in 0..5 :: k < specRecHdrLen(f.CdrList[j].Hdr) ==> verif_fileByte(name, specHdrLen(f.Hdr)+SpecRecsLen(f.CdrList, j)+k) == specRecHdrByte(f.CdrList[j].Hdr, k)
+// @   assert "g.Decoding(": forall j int in 0..2 :: j < len(f.CdrList) ==> forall k int :: 0 <= k && k < len(f.CdrList[j].CdrByte) ==> verif_fileByte(name, specHdrLen(f.Hdr)+SpecRecsLen(f.CdrList, j)+specRecHdrLen(f.CdrList[j].Hdr)+k) == f.CdrList[j].CdrByte[k]
 // @   ensures specHdrEq(g.Hdr, f.Hdr)
 // @   ensures forall k int :: 0 <= k && k < len(f.Hdr.CDRRouteingFilter) ==> g.Hdr.CDRRouteingFilter[k] == f.Hdr.CDRRouteingFilter[k]
 // @   ensures forall k int :: 0 <= k && k < len(f.Hdr.PrivateExtension) ==> g.Hdr.PrivateExtension[k] == f.Hdr.PrivateExtension[k]
@@ -202,6 +209,13 @@ func verifLemmaFileRoundTrip(f CDRFile, name string) (g CDRFile) {
 // @ lemma verifLemmaHeaderRoundTrip [C14]
 // @   inline-calls (CDRFile).Encoding
 // @   requires specHdrOK(f.Hdr) && f.Hdr.NumberOfCdrsInFile == 0 && len(f.CdrList) == 0
+// @   assert "g.Decoding(": verif_fileLen(name) == specHdrLen(f.Hdr)+SpecRecsLen(f.CdrList, len(f.CdrList))
+// @   assert "g.Decoding(": forall k int in 0..50 :: verif_fileByte(name, k) == specHdrFixed(f.Hdr, k)
+// @   assert "g.Decoding(": forall k int :: 0 <= k && k < len(f.Hdr.CDRRouteingFilter) ==> verif_fileByte(name, 50+k) == f.Hdr.CDRRouteingFilter[k]
+// @   assert "g.Decoding(": verif_fileByte(name, 50+len(f.Hdr.CDRRouteingFilter)) == specBE16(f.Hdr.LengthOfPrivateExtension, 0) && verif_fileByte(name, 51+len(f.Hdr.CDRRouteingFilter)) == specBE16(f.Hdr.LengthOfPrivateExtension, 1)
+// @   assert "g.Decoding(": forall k int :: 0 <= k && k < len(f.Hdr.PrivateExtension) ==> verif_fileByte(name, 52+len(f.Hdr.CDRRouteingFilter)+k) == f.Hdr.PrivateExtension[k]
+// @   assert "g.Decoding(": f.Hdr.HighReleaseIdentifier == 7 ==> verif_fileByte(name, 52+len(f.Hdr.CDRRouteingFilter)+len(f.Hdr.PrivateExtension)) == f.Hdr.HighReleaseIdentifierExtension
+// @   assert "g.Decoding(": f.Hdr.LowReleaseIdentifier == 7 ==> verif_fileByte(name, 52+len(f.Hdr.CDRRouteingFilter)+len(f.Hdr.PrivateExtension)+specB2I(f.Hdr.HighReleaseIdentifier == 7)) == f.Hdr.LowReleaseIdentifierExtension
 // @   ensures specHdrEq(g.Hdr, f.Hdr)
 // @   ensures forall k int :: 0 <= k && k < len(f.Hdr.CDRRouteingFilter) ==> g.Hdr.CDRRouteingFilter[k] == f.Hdr.CDRRouteingFilter[k]
 // @   ensures forall k int :: 0 <= k && k < len(f.Hdr.PrivateExtension) ==> g.Hdr.PrivateExtension[k] == f.Hdr.PrivateExtension[k]
